@@ -4,7 +4,7 @@ The other generated text documents of C04 are UTF-8 and say so.  A text format, 
 a declared charset label (HTML meta element, MIME part header), a byte-order mark, or - for plain text - whatever a
 detector concludes from the bytes.  Some decoders hand out code points that a well-formed str cannot hold (lone
 surrogates).  This family enumerates, for the formats whose text is decoded from raw bytes by the extractor itself
-(html, mhtml; txt, md, csv, json), the document [title, one paragraph] described by
+(html, mhtml; eml, mbox; txt, md, csv, json), the document [title / subject, one paragraph] described by
 
     cs = {"label": L, "form": F}
 
@@ -17,6 +17,8 @@ F (how the label reaches the reader)
     html:  "meta" (<meta charset=L>), "httpequiv" (<meta http-equiv=Content-Type content="text/html; charset=L">),
            "bom" (no declaration; the byte-order mark of L - only for the labels that have one)
     mhtml: "meta" (charset parameter of the text/html part AND the meta element; body base64), "part" (part parameter only)
+    eml, mbox: "plain" (one text/plain part, charset parameter L, base64; the subject is an RFC 2047 encoded-word in L),
+           "alt" (multipart/alternative: text/plain and text/html part, both labelled L)
     txt, md, csv, json (one extractor; quick: txt only): "sig" - no label exists in the format: L names the signature the
            file starts with (none, the BOMs, the UTF-7 signature "+/v8-") and the codec of the bytes
 The title and the paragraph carry, between two tokens, the characters e-acute and euro (when the codec can write them) and the
@@ -53,8 +55,10 @@ RAW_PROBES_32 = [b"\x00\xd8\x00\x00", b"\x00\x00\xd8\x00", b"\x00\x00\x11\x00", 
 
 HTML_FORMS = ("meta", "httpequiv", "bom")
 MHTML_FORMS = ("meta", "part")
+MAIL_FORMS = ("plain", "alt")          # one text/plain part / multipart/alternative with a text/plain and a text/html part
+MAIL_FORMATS = ("eml", "mbox")
 PLAIN_FORMATS = ("txt", "md", "csv", "json")
-CS_FORMATS = ("html", "mhtml") + PLAIN_FORMATS
+CS_FORMATS = ("html", "mhtml") + MAIL_FORMATS + PLAIN_FORMATS
 CS_BODY = ["text"]
 
 
@@ -71,6 +75,8 @@ def valid(fmt, cs):
         return lab in LABELS and form in HTML_FORMS and (form != "bom" or lab in BOMS)
     if fmt == "mhtml":
         return lab in LABELS and form in MHTML_FORMS
+    if fmt in MAIL_FORMATS:
+        return lab in LABELS and form in MAIL_FORMS
     if fmt in PLAIN_FORMATS:
         return form == "sig" and lab in SIGS
     return False
@@ -135,6 +141,27 @@ def build(fmt, cs, tk):
                 "--" + bnd, 'Content-Type: text/html; charset="%s"' % label, "Content-Transfer-Encoding: base64",
                 "Content-Location: http://h/p.html", "", base64.encodebytes(page).decode("ascii").replace("\n", "\r\n"), "--%s--" % bnd, ""]
         data = "\r\n".join(head).encode("ascii")
+    elif fmt in MAIL_FORMATS:
+        # the charset parameter of the body part(s) and of the subject's encoded-word (RFC 2047) carry the label; bodies base64
+        label, codec = LABELS[lab]
+        b64 = lambda raw: base64.encodebytes(raw).decode("ascii").replace("\n", "\r\n")     # noqa: E731
+        subj = "=?%s?B?%s?=" % (label or "us-ascii", base64.b64encode(_text_bytes(tk.new("Z"), tk.new("Z"), codec, raw=False)).decode("ascii"))
+        if codec.startswith(("utf-16", "utf-32")) or len(subj) > 900:
+            subj = tk.new("Z")                 # wide code units are no encoded-word payload
+        plain = _text_bytes(tk.new("B"), tk.new("B"), codec) + _enc("\n", codec)
+        head = ["From: A <a@example.org>", "To: B <b@example.org>", "Subject: " + subj, "Date: Mon, 01 Jan 2024 10:00:00 +0000",
+                "Message-ID: <verif-c04@example.org>", "MIME-Version: 1.0"]
+        if form == "plain":
+            lines = head + ['Content-Type: text/plain; charset="%s"' % label, "Content-Transfer-Encoding: base64", "", b64(plain)]
+        else:
+            bnd = "=_verif_c04_alt"
+            page = _html(label, codec, "none", tk)
+            lines = head + ['Content-Type: multipart/alternative; boundary="%s"' % bnd, "", "--" + bnd,
+                            'Content-Type: text/plain; charset="%s"' % label, "Content-Transfer-Encoding: base64", "", b64(plain), "--" + bnd,
+                            'Content-Type: text/html; charset="%s"' % label, "Content-Transfer-Encoding: base64", "", b64(page), "--%s--" % bnd, ""]
+        data = "\r\n".join(lines).encode("ascii")
+        if fmt == "mbox":
+            data = b"From a@example.org Mon Jan  1 10:00:00 2024\n" + data.replace(b"\r\n", b"\n") + b"\n"
     else:
         sig, codec = SIGS[lab]
         data = sig + _text_bytes(tk.new("B"), tk.new("B"), codec) + _enc("\n", codec)
@@ -150,6 +177,10 @@ def cases(tier, fmt):
                     out.append({"label": lab, "form": form})
     elif fmt == "mhtml":
         for form in MHTML_FORMS:
+            for lab in LABELS:
+                out.append({"label": lab, "form": form})
+    elif fmt in MAIL_FORMATS:
+        for form in (MAIL_FORMS if (fmt == "eml" or tier != "quick") else MAIL_FORMS[:1]):
             for lab in LABELS:
                 out.append({"label": lab, "form": form})
     elif fmt == "txt" or (fmt in PLAIN_FORMATS and tier != "quick"):
